@@ -14,6 +14,7 @@ import ScyllaVerif.Props.C02
 import ScyllaVerif.Model.Retry
 import ScyllaVerif.Model.Exec
 import ScyllaVerif.Model.PoolReconnect
+import ScyllaVerif.Model.PoolKeyspace
 import ScyllaVerif.Proofs.PoolReconnect
 /-!
 # C10 — when a connection dies every request in flight on it fails promptly; none hangs
@@ -1162,5 +1163,52 @@ example :
     cur = durMax ∧ mulJ cur 1000001 = none := by decide +kernel
 
 end reconnect
+
+/-! ## 10. OBSERVATION (a gap of the code, not a guarantee): a held `USE` on a NEW connection stops refilling for good
+(`Model/PoolKeyspace.lean`)
+
+With a session keyspace, a freshly opened connection sits in `ready_connections` until its `USE` is answered - without
+a timeout - and `need_filling` is false while anything sits there. A node that accepts, handshakes, answers keep-alive
+OPTIONS but never answers `USE` therefore freezes the pool at its current connections: deaths only shrink it, no
+trigger refills it. Keep-alive does not rescue it (the probe IS answered). Driven by the `poolk` cases, which observe
+exactly this on the real pool. -/
+
+section poolkeyspace
+open ScyllaVerif.PoolKeyspace
+
+/-- While a connection's `USE` is held (`setting > 0`, nothing completes), whatever dies and however often the
+refiller's loop runs: no new connection is opened (`setting` does not change) and the pool only shrinks. -/
+theorem held_use_blocks_refill (p : KPool) (hs : 0 < p.setting) (evs : List KEv) (hsil : ∀ e ∈ evs, silent e = true) :
+    (PoolKeyspace.run p evs).setting = p.setting ∧ (PoolKeyspace.run p evs).conns ≤ p.conns := by
+  induction evs generalizing p with
+  | nil => exact ⟨rfl, Nat.le_refl _⟩
+  | cons e rest ih =>
+    have he : silent e = true := hsil e (by simp)
+    have hrest : ∀ e ∈ rest, silent e = true := fun e' h' => hsil e' (by simp [h'])
+    have key : (PoolKeyspace.step p e).setting = p.setting ∧ (PoolKeyspace.step p e).conns ≤ p.conns := by
+      cases e with
+      | die => exact ⟨rfl, Nat.sub_le _ _⟩
+      | fill =>
+        have : needFilling p = false := by
+          unfold needFilling
+          have : (p.setting == 0) = false := by simp; omega
+          simp [this]
+        simp [PoolKeyspace.step, this]
+      | complete => simp [silent] at he
+      | fail => simp [silent] at he
+    obtain ⟨h1, h2⟩ := ih (PoolKeyspace.step p e) (by rw [key.1]; exact hs) hrest
+    refine ⟨?_, ?_⟩
+    · show (PoolKeyspace.run (PoolKeyspace.step p e) rest).setting = p.setting
+      rw [h1, key.1]
+    · show (PoolKeyspace.run (PoolKeyspace.step p e) rest).conns ≤ p.conns
+      exact Nat.le_trans h2 key.2
+
+/-- In particular the pool can run EMPTY and stay empty: k deaths after the held `USE` leave no connection, and no
+refill follows (the `poolk 2` history). Without the held connection (`setting = 0`) the same history refills. -/
+example :
+    PoolKeyspace.run ⟨2, 0, 2⟩ [.die, .fill, .die, .fill, .fill] = ⟨0, 1, 2⟩ ∧
+    PoolKeyspace.run ⟨2, 0, 2⟩ [.die, .fill, .complete, .die, .fill, .complete] = ⟨2, 0, 2⟩ := by decide
+
+end poolkeyspace
 
 end ScyllaVerif.Props.C10
